@@ -112,11 +112,34 @@ class Unit:
                 self.items.append(('region', Region(file, path, opts.strip(), lines, i)))
                 i = j + 1
                 continue
+            m = re.match(r'^\s*//@trusted\s+(.*)$', text)
+            if m:
+                comps = [c.strip() for c in m.group(1).split('::')]
+                self.items.append(('trusted', comps[0], comps[1:], origin))
+                i += 1
+                continue
             self.items.append(('line', text, origin))
             i += 1
 
     def regions(self):
         return [it[1] for it in self.items if it[0] == 'region']
+
+    def trusted_items(self):
+        return [(it[1], it[2]) for it in self.items if it[0] == 'trusted']
+
+    def trusted_hashes(self, repo=None):
+        """sha256 of the raw text of each trusted (unverified, contract-only) item of /repo"""
+        import hashlib
+        from . import rtok
+        repo = repo or REPO
+        out = {}
+        for (file, path) in self.trusted_items():
+            src = open(os.path.join(repo, file)).read()
+            toks = rtok.tokenize(src)
+            s0, e0 = extract.find_item(toks, path)
+            raw = rtok.untok([t for t in toks[s0:e0 + 1] if t[0] not in ('lc', 'bc', 'ws')])
+            out[file + ' :: ' + ' :: '.join(path)] = hashlib.sha256(raw.encode()).hexdigest()
+        return out
 
     # -- golden ------------------------------------------------------------------------------
     def golden_path(self):
@@ -133,6 +156,9 @@ class Unit:
         for r in self.regions():
             lines, counts, sha = r.extract_current(repo)
             g[r.key] = {'lines': lines, 'rewrites': counts, 'sha256': sha}
+        th = self.trusted_hashes(repo)
+        if th:
+            g['@trusted'] = th
         os.makedirs(GOLDEN_DIR, exist_ok=True)
         with open(self.golden_path(), 'w') as f:
             json.dump(g, f, indent=1, sort_keys=True)
@@ -323,9 +349,19 @@ class Woven:
             self.tags.append(cur if (cur is not None and kind != 'code') else default)
             self.ob_label.append(cur_label if kind != 'code' else '')
 
+        self.trusted_changed = []
+        if unit.trusted_items():
+            cur_th = unit.trusted_hashes(repo)
+            gold_th = golden.get('@trusted', {})
+            for k, v in cur_th.items():
+                if gold_th.get(k) != v:
+                    self.trusted_changed.append(k)
         for it in unit.items:
             if it[0] == 'line':
                 emit(it[1], 'contract', it[2])
+                continue
+            if it[0] == 'trusted':
+                emit('// trusted by contract (body not verified, hashed): ' + it[1] + ' :: ' + ' :: '.join(it[2]), 'contract', it[3])
                 continue
             region = it[1]
             cur_lines, counts, sha = region.extract_current(repo)
